@@ -29,6 +29,11 @@ import Proofs.InvocationText
 import Martian.JsonBytes
 import Proofs.JsonBytes
 import Proofs.JsonBytesFilter
+import Martian.InvocationSort
+import Proofs.InvocationSort
+import Martian.InvocationFork
+import Proofs.InvocationFork
+import Proofs.InvocationForkTyped
 import Gen.Facts
 
 namespace Props.C16
@@ -127,7 +132,7 @@ back as the integer `0` from either printer — the sign of zero is gone. -/
 theorem negative_zero_sign_lost :
     encLit (.flt ⟨true, 0, 0⟩) = .int 0 ∧ textLit (.flt ⟨true, 0, 0⟩) = .int 0 := by decide
 
-/-- The tree function `reparse` (what the text leg returns: `text_leg_is_format_parse` below proves
+/-- The tree function `reparse` (what the text leg returns: `text_leg_is_format_parse_partial` below proves
 that it IS formatter ∘ lexer ∘ parser) does not change the JSON a call marshals to — although the
 two printers use different rules for integer syntax (10^6 vs int64).  On its own this is a
 statement about the tree function only. -/
@@ -159,7 +164,7 @@ theorem encode_convert_exact_partial (t : TypeId) (j : J) (hi : jIntsOk j = true
 /-- The first direction on one argument at TREE level: invocation JSON → `convertToExp` → the tree
 function `reparse` → `MarshalJSON` gives the JSON value back (up to the normalisation above).  The
 statement with the real text in the middle – print the call, lex, parse – is
-`source_roundtrip_text` below. -/
+`source_roundtrip_text_partial` below. -/
 theorem source_roundtrip (t : TypeId) (j : J) (e : Exp) (h : convert t j = some e) :
     encode (reparse e) = normJ j := by
   rw [encode_reparse, encode_convert t j e h]
@@ -342,10 +347,14 @@ theorem split_key_fold_last_wins :
       (.cons [0x53, 0x50, 0x4C, 0x49, 0x54] (.arr (.cons (.lit (.int 2)) .nil)) (.cons [0x78] (.lit (.int 0)) .nil))))).map Arg.printable
       = some true
     ∧ (JKvs.cons splitKey (J.arr (.cons (.lit (.int 1)) .nil))
-        (.cons [0x53, 0x50, 0x4C, 0x49, 0x54] (.lit (.int 2)) .nil)).findSplit.isSome = true
+        (.cons [0x53, 0x50, 0x4C, 0x49, 0x54] (J.arr (.cons (.lit (.int 2)) .nil))
+          (.cons [0x78] (.lit (.int 0)) .nil))).findSplit = some (J.arr (.cons (.lit (.int 2)) .nil))
+    ∧ (buildBinding true ⟨.scalar, 0, 0⟩ (.obj (.cons splitKey (.arr (.cons (.lit (.int 1)) .nil))
+      (.cons [0x53, 0x50, 0x4C, 0x49, 0x54] (.arr (.cons (.lit (.int 2)) .nil)) (.cons [0x78] (.lit (.int 0)) .nil))))).map encodeArg
+      = some (.obj (.cons splitKey (.arr (.cons (.lit (.int 2)) .nil)) .nil))
     ∧ isSplitKey [0x53, 0x70, 0x6C, 0x69, 0x74] = true ∧ isSplitKey [0xC5, 0xBF, 0x70, 0x6C, 0x69, 0x74] = true
     ∧ isSplitKey [0x73, 0x70, 0x6C, 0x61, 0x74] = false := by
-  refine ⟨by rfl, by rfl, by decide, by decide, by decide⟩
+  refine ⟨by rfl, by rfl, by rfl, by decide, by decide, by decide⟩
 
 /-- A parameter of struct type split over a map (`x = split {"k": {a: 1}}`)
 is converted at `map<STRUCT>`: the outer literal stays a map literal and every
@@ -534,20 +543,31 @@ two facts used – integer-syntax text exactly when `Flt.textAsInt`, else a NUM_
 back as the same float64.  `wfText` / `wfCallText` = C09's well-formedness of what is printed
 (strings and keys valid UTF-8, keys ascending, struct keys and binding ids identifiers, integers in
 int64, a split operand a non-empty collection): what the formatter can print and the grammar
-accept back; `-0.0` fails `floatsOk` with the real strconv (known finding C16-N5). -/
+accept back; for `-0.0` the real strconv text `-0` fails `wfText` (it is neither a NUM_FLOAT token nor a
+canonical integer; `floatsOk` holds) – known finding C16-N5; the theorems are silent there.
+MEMBER ORDER (audit pass 2, C16-M1): `wfText` demands the keys of every map in strictly ascending
+order (C09's `sortedKeys`), i.e. the theorems are about expressions as a Go map is PRINTED; `convert`
+keeps the JSON's source order.  Section MemberOrder below closes the gap: `sortE` (sort by key, last
+duplicate wins = the Go map read out through `sort.Strings`) always satisfies the order component. -/
 section TextLeg
 open Martian.InvocationText
 
-/-- EXPRESSION: printing with the formatter, lexing and parsing with `ParseValExp` returns exactly
+/-- `_partial`: restricted to `wfText g e` (keys of every map strictly ascending – see MemberOrder –,
+struct keys identifiers, strings valid UTF-8, integers in int64) and `floatsOk`; for an unsorted or
+duplicated key the model parser returns the members sorted, so the statement without `wfText` is
+false (`sortE_changes_unsorted` below).
+EXPRESSION: printing with the formatter, lexing and parsing with `ParseValExp` returns exactly
 the tree `reparse e` – for every printable expression (nested structs, typed maps, arrays, strings
 with any escapes, big integers, floats) -/
-theorem text_leg_is_format_parse (g : G) (e : Exp) (hw : wfText g e = true) (hf : floatsOk g e = true) :
+theorem text_leg_is_format_parse_partial (g : G) (e : Exp) (hw : wfText g e = true) (hf : floatsOk g e = true) :
     textLeg g e = some (reparse e) :=
   text_leg_exp g e hw hf
 
-/-- CALL: `Ast.Format()` of the call `BuildCallAst` built, lexed and parsed as a `call_stm`, gives
+/-- `_partial`: as above, plus: a split operand must be a non-empty collection
+(`split_empty_not_printable`, `split_null_not_printable`: findings C16-N3a/b).
+CALL: `Ast.Format()` of the call `BuildCallAst` built, lexed and parsed as a `call_stm`, gives
 the same callable and the same bindings with every value `reparse`d and every split status kept -/
-theorem text_leg_call_is_format_parse (g : G) (name : Str) (bs : List (Str × Arg))
+theorem text_leg_call_is_format_parse_partial (g : G) (name : Str) (bs : List (Str × Arg))
     (hw : wfCallText g name bs = true) (hf : floatsOkBinds g bs = true) :
     callTextLeg g name bs = some (name, bs.map fun b => (b.1, b.2.reparse)) :=
   text_leg_call g name bs hw hf
@@ -564,13 +584,15 @@ theorem dataOf_reparse (bs : List (Str × Arg)) :
     simp only [List.map_cons]
     rw [dataOf_cons, dataOf_cons, ih, hb.1, hb.2]
 
-/-- SOURCE ROUND TRIP OVER THE REAL TEXT (replaces the postulated text leg): invocation data →
+/-- `_partial`: hypothesis `wfCallText` (sorted keys at every depth – for invocation JSON in ANY member
+order use `source_roundtrip_text_any_order` below –, printable split operands: C16-N3a/b).
+SOURCE ROUND TRIP OVER THE REAL TEXT (replaces the postulated text leg): invocation data →
 `BuildCallAst` (`buildCall`) → `Ast.Format()` BYTES (`printCall`) → tokenizer → `call_stm` parser →
 `BuildDataForAst` (`dataOf`) returns the callable and the canonical form of the data – every
 declared parameter present, values preserved up to float normalisation, `splitargs` preserved –
 for every signature and all data whose call is printable (`wfCallText`, e.g. no split over an empty
 collection: findings C16-N3a/b) with strconv behaving as `floatsOkBinds` says. -/
-theorem source_roundtrip_text (g : G) (name : Str) (sig : Sig) (d : Data) (bs : List (Str × Arg))
+theorem source_roundtrip_text_partial (g : G) (name : Str) (sig : Sig) (d : Data) (bs : List (Str × Arg))
     (h : buildCall sig d = some bs) (hw : wfCallText g name bs = true) (hf : floatsOkBinds g bs = true) :
     (callTextLeg g name bs).map (fun p => (p.1, dataOf p.2)) = some (name, canonData sig d) := by
   rw [text_leg_call g name bs hw hf]
@@ -597,20 +619,259 @@ private def tV : Exp :=
 example : wfText gEx tV = true ∧ floatsOk gEx tV = true := by decide +kernel
 /-- … and on it the bytes are really printed and read back -/
 example : textLeg gEx tV = some (reparse tV) ∧ (textLeg gEx tV).isSome = true :=
-  ⟨text_leg_is_format_parse gEx tV (by decide +kernel) (by decide +kernel), by decide +kernel⟩
+  ⟨text_leg_is_format_parse_partial gEx tV (by decide +kernel) (by decide +kernel), by decide +kernel⟩
 /-- a split call over that value and a scalar: `map call ST(x = split [1], y = {…},)` -/
 example : wfCallText gEx [0x53, 0x54] [(kX, .split (.arr (.cons (.lit (.int 1)) .nil))), (kY, .plain tV)] = true
     ∧ floatsOkBinds gEx [(kX, .split (.arr (.cons (.lit (.int 1)) .nil))), (kY, .plain tV)] = true := by
   decide +kernel
 /-- the empty struct literal is where the old definition of `reparse` was wrong: `{}` reads back as a map -/
 example : textLeg gEx (.map true .nil) = some (.map false .nil) :=
-  text_leg_is_format_parse gEx (.map true .nil) (by decide +kernel) (by decide +kernel)
-/-- `-0.0`: with the real strconv text `-0` the hypothesis `floatsOk` fails (finding C16-N5) -/
+  text_leg_is_format_parse_partial gEx (.map true .nil) (by decide +kernel) (by decide +kernel)
+/-- `-0.0`: with the real strconv text `-0` the hypothesis `wfText` fails, `floatsOk` holds (finding C16-N5) -/
 example : floatsOk { text := fun _ => [0x2D, 0x30], val := fun _ => ⟨true, 0, 0⟩ } (.lit (.flt ⟨true, 0, 0⟩)) = true
     ∧ wfText { text := fun _ => [0x2D, 0x30], val := fun _ => ⟨true, 0, 0⟩ } (.lit (.flt ⟨true, 0, 0⟩)) = false := by
   decide +kernel
 
 end TextLeg
+
+/-! ## member order (audit pass 2, C16-M1)
+
+`ParseValExp` builds a Go map of a JSON object's members (a later duplicate replaces an earlier one)
+and every printer writes the keys through `sort.Strings`; the model's `convert` keeps source order.
+`Martian.InvocationSort.sortE` / `sortJ` = the Go map read out in printing order.  What Go prints for
+the call `buildCall` built is `printCall g name (sortBinds bs)`. -/
+section MemberOrder
+open Martian.InvocationText Martian.InvocationSort
+
+/-- THE SORTEDNESS LEMMA: whatever the member order and duplicates of `e`, in `sortE e` the keys of
+every map at every depth are strictly ascending – the order component (`sortedKeys`) of the text-leg
+hypothesis `wfText` always holds for what Go prints -/
+theorem printed_keys_sorted (g : G) (e : Exp) :
+    sortedE (sortE e) = true ∧
+    ∀ s kvs, sortE e = .map s kvs → Martian.FormatExp.sortedKeys (toFKvs g kvs) = true := by
+  refine ⟨sortedE_sortE e, fun s kvs h => ?_⟩
+  have hs := sortedE_sortE e
+  rw [h] at hs
+  simp only [sortedE, Bool.and_eq_true] at hs
+  rw [sortedKeys_toFKvs]; exact hs.1
+
+/-- on an expression already in printing order (what the harness reads off a real `MapExp`, a Go map,
+through sorted keys) `sortE` changes nothing -/
+theorem sortE_of_sorted_id (e : Exp) (h : sortedE e = true) : sortE e = e := sortE_of_sorted e h
+
+/-- the marshalled JSON of the sorted expression is the sorted JSON: values, nesting and which
+duplicate survives are those of the input -/
+theorem sort_commutes_with_marshal (e : Exp) : encode (sortE e) = sortJ (encode e) := encode_sortE e
+
+/-- SOURCE ROUND TRIP FOR INVOCATION JSON IN ANY MEMBER ORDER: data → `BuildCallAst` (`buildCall`, members
+in source order) → the text Go prints (keys sorted, last duplicate kept: `sortBinds`) → tokenizer →
+`call_stm` parser → `BuildDataForAst` returns the callable and the canonical data with every object
+read as a Go map (`sortData`).  The remaining hypotheses are about strings, identifiers, integers
+and split operands of the PRINTED call, not about member order. -/
+theorem source_roundtrip_text_any_order (g : G) (name : Str) (sig : Sig) (d : Data) (bs : List (Str × Arg))
+    (h : buildCall sig d = some bs) (hw : wfCallText g name (sortBinds bs) = true)
+    (hf : floatsOkBinds g (sortBinds bs) = true) :
+    (callTextLeg g name (sortBinds bs)).map (fun p => (p.1, dataOf p.2))
+      = some (name, sortData (canonData sig d)) := by
+  rw [text_leg_call g name (sortBinds bs) hw hf]
+  simp only [Option.map_some, dataOf_reparse, dataOf_sortBinds, call_roundtrip sig d bs h]
+
+/-- witness for the `_partial` text-leg theorems: `{"b": 1, "a": 2}` is not in printing order
+(`wfText` false), Go prints and reads back `{"a": 2, "b": 1}`; `{"a": 1, "a": 2}` is the map `{"a": 2}` -/
+theorem sortE_changes_unsorted :
+    wfText gEx (.map false (.cons [0x62] (.lit (.int 1)) (.cons [0x61] (.lit (.int 2)) .nil))) = false
+    ∧ wfText gEx (sortE (.map false (.cons [0x62] (.lit (.int 1)) (.cons [0x61] (.lit (.int 2)) .nil)))) = true
+    ∧ textLeg gEx (sortE (.map false (.cons [0x62] (.lit (.int 1)) (.cons [0x61] (.lit (.int 2)) .nil))))
+        = some (.map false (.cons [0x61] (.lit (.int 2)) (.cons [0x62] (.lit (.int 1)) .nil)))
+    ∧ encode (sortE (.map false (.cons [0x61] (.lit (.int 1)) (.cons [0x61] (.lit (.int 2)) .nil))))
+        = .obj (.cons [0x61] (.lit (.int 2)) .nil) := by
+  refine ⟨by decide +kernel, by decide +kernel, ?_, by rfl⟩
+  exact text_leg_is_format_parse_partial gEx _ (by decide +kernel) (by decide +kernel)
+
+end MemberOrder
+
+/-! ## every fork's `_invocation` (audit C16-H2): `Fork.writeInvocation`
+
+`writeInvocation` = `BuildCallSource(call.Id, resolveInputs(forkId, keepSplit = true), callable, …)`.
+`Martian.InvocationFork`: `MV` are the values `resolveInputs` returns in their dynamic types (`nil`,
+a `ValExp` of the compiled source – possibly a `SplitExp` no fork index resolves –, `RawMessage`,
+`LazyArgumentMap`, `MarshalerMap`, `marshallerArray`), `marshal` their `MarshalJSON` (what `_args`
+receives), `convertMV` the cases of `convertToExp`, `invocationOf sig mapped args` the loop of
+`BuildCallAst` (`none` = the error after which an EMPTY `_invocation` is written), `printFork` /
+`forkTextLeg` the real formatter / lexer / parser models of C09 on the call (`Id ≠ DecId` for
+`call X as Y`), `forkData` the invocation data the call stands for.  WHICH value a fork gets is C01's
+model (`ResolverStatic.evalRT` / `runtimeArgs`, tied to the real `_args` per run);
+`argsOfNode` reads it.  Tie per run (harness/c16_fork.go, Tier A): for every fork of every node
+the model's text = the call statement of the real `_invocation` bytes, `forkCompiles` = "the real
+`_invocation` compiles", and for stage forks the data of the re-read text = the delivered `_args`. -/
+section ForkInvocation
+open Martian.InvocationText Martian.InvocationFork
+
+/-- THE STRUCTURED CASES OF `convertToExp` ARE THE RAW CASE: a run-time value (no source literal
+inside) that is well-typed at `t` converts – member by member through `LazyArgumentMap` /
+`MarshalerMap` / `marshallerArray` / `nil`, with `possibleStructType` and `structMemberType` – to
+exactly the expression `convertToExp` makes of its marshalled JSON (`ParseValExp` +
+`fixExpressionTypes`).  (Ill-typed values differ: an undeclared key of a struct is converted at the
+struct's own type by the structured cases and left alone by `fixExpressionTypes`.) -/
+theorem fork_values_convert_as_json (v : MV) (t : TypeId) (hn : noVal v = true)
+    (hw : jWt t.base t.arrayDim t.mapDim (marshal v) = true) :
+    convertMV t.base t.arrayDim t.mapDim v = (convert t (marshal v)).map ofExp :=
+  convertMV_eq_convert v t.base t.arrayDim t.mapDim hn hw
+
+/-- … and the binding of such a value (integers in range) is a plain binding of a WELL-TYPED
+expression: shape and struct-vs-map flags as the compiler demands for the parameter -/
+theorem stage_fork_binding_well_typed (v : MV) (t : TypeId) (hn : noVal v = true)
+    (hw : jWt t.base t.arrayDim t.mapDim (marshal v) = true) (hi : mvIntsOk v = true) :
+    ∃ e, bindingOf false t v = some (.plain (ofExp e)) ∧ wt t.base t.arrayDim t.mapDim e = true := by
+  obtain ⟨e, he, hc, hwt, _⟩ := convertMV_wt v t.base t.arrayDim t.mapDim hn hw hi
+  have hwrap : wrapBinding false (ofExp e) = .plain (ofExp e) := by cases e <;> rfl
+  cases v with
+  | nil =>
+    refine ⟨.lit .null, rfl, by simp [wt, Lit.isNull]⟩
+  | raw j => exact ⟨e, by simp [bindingOf, buildBinding, marshal] at hc ⊢; simp [hc, ofArg], hwt⟩
+  | val x => simp [noVal] at hn
+  | lazy kvs => exact ⟨e, by simp [bindingOf, he, hwrap], hwt⟩
+  | mmap kvs => exact ⟨e, by simp [bindingOf, he, hwrap], hwt⟩
+  | marr xs => exact ⟨e, by simp [bindingOf, he, hwrap], hwt⟩
+
+/-- the data of the call built from a fork's resolved inputs: every declared parameter, the
+marshalled value (floats normalised), `{"split": collection}` and a `splitargs` entry for a
+parameter left split -/
+theorem fork_invocation_data (sig : Sig) (mapped : List Str) (args : List (Str × MV))
+    (ibs : List (Str × IArg)) (bs : List (Str × Arg))
+    (h : invocationOf sig mapped args = some ibs) (hp : plainBinds ibs = some bs) :
+    dataOf bs = forkData sig mapped args :=
+  dataOf_invocationOf sig mapped args ibs bs h hp
+
+/-- ANY FORK (stage, top-level pipeline, sub-pipeline) whose invocation has one of the shapes that
+compile (`forkCompiles`: no `split` inside a value, every split operand a non-empty array / map
+literal, all of one length / key set): the `_invocation` text, lexed and parsed, is a call of the
+node's callable under the node's call id whose data is exactly the fork's resolved inputs. -/
+theorem fork_invocation_roundtrip (g : G) (decId id : Str) (sig : Sig) (mapped : List Str)
+    (args : List (Str × MV)) (ibs : List (Str × IArg))
+    (h : invocationOf sig mapped args = some ibs) (hc : forkCompiles g decId id ibs = true) :
+    ∃ bs, plainBinds ibs = some bs ∧ (floatsOkBinds g bs = true →
+      (forkTextLeg g decId id bs).map (fun c => (c.1, c.2.1, dataOf c.2.2))
+        = some (decId, id, forkData sig mapped args)) := by
+  unfold forkCompiles at hc
+  cases hp : plainBinds ibs with
+  | none => simp [hp] at hc
+  | some bs =>
+    simp only [hp, Bool.and_eq_true] at hc
+    refine ⟨bs, rfl, fun hf => ?_⟩
+    rw [fork_text_leg g decId id bs hc.1 hf]
+    simp only [Option.map_some, dataOf_reparse, dataOf_invocationOf sig mapped args ibs bs h hp]
+
+/-- STAGE FORKS.  The fork id of a stage fork has an index for every enclosing map call, so every
+split is resolved (`splitFree`) and no parameter is left split (`mapped = []`).  With the integers
+of the resolved values in range `BuildCallAst` succeeds, nothing of the call has a split inside,
+and – the text being printable (`wfForkText`: identifiers, valid UTF-8, sorted keys) and strconv
+behaving (`floatsOkBinds`) – `_invocation`, lexed and parsed with the real grammar, is
+`call <callable> [as <id>](…)` whose data is `canonData` of the fork's marshalled arguments: every
+declared parameter, the value `_args` has (integral floats as integers), no split argument. -/
+theorem stage_fork_invocation_roundtrip (g : G) (decId id : Str) (sig : Sig) (args : List (Str × MV))
+    (hs : ∀ p v, lookupMV args p = some v → splitFree v = true)
+    (hi : ∀ p v, lookupMV args p = some v → mvIntsOk v = true) :
+    ∃ ibs bs, invocationOf sig [] args = some ibs ∧ plainBinds ibs = some bs ∧
+      (wfForkText g decId id bs = true → floatsOkBinds g bs = true →
+        (forkTextLeg g decId id bs).map (fun c => (c.1, c.2.1, dataOf c.2.2))
+          = some (decId, id, canonData sig ⟨marshalArgs args, []⟩)) := by
+  obtain ⟨ibs, h⟩ := invocationOf_isSome args hi sig
+  obtain ⟨bs, hp⟩ := plainBinds_of_splitFree args hs sig ibs h
+  refine ⟨ibs, bs, h, hp, fun hw hf => ?_⟩
+  rw [fork_text_leg g decId id bs hw hf]
+  simp only [Option.map_some, dataOf_reparse, dataOf_invocationOf sig [] args ibs bs h hp,
+    forkData_stage args hs sig]
+
+/-- THE TOP-LEVEL PIPELINE'S FORK.  Its fork id is empty; its inputs are the literals of the
+invocation source, a `split` argument of a top-level `map call` arriving as the `SplitExp` itself
+(`topOk`).  The `_invocation` is then a `map call` again, and read back it is the callable with
+`forkData`: the plain arguments as they are and `{"split": collection}` + a `splitargs` entry for
+each split one. -/
+theorem top_fork_invocation_roundtrip (g : G) (decId id : Str) (sig : Sig) (args : List (Str × MV))
+    (hs : ∀ p v, lookupMV args p = some v → topOk v = true)
+    (ibs : List (Str × IArg)) (h : invocationOf sig [] args = some ibs) :
+    ∃ bs, plainBinds ibs = some bs ∧
+      (wfForkText g decId id bs = true → floatsOkBinds g bs = true →
+        (forkTextLeg g decId id bs).map (fun c => (c.1, c.2.1, dataOf c.2.2))
+          = some (decId, id, forkData sig [] args)) := by
+  obtain ⟨bs, hp⟩ := plainBinds_of_topOk args hs sig ibs h
+  refine ⟨bs, hp, fun hw hf => ?_⟩
+  rw [fork_text_leg g decId id bs hw hf]
+  simp only [Option.map_some, dataOf_reparse, dataOf_invocationOf sig [] args ibs bs h hp]
+
+/-- ON TOP OF C01's RESOLVER: for fork `f` of stage node `n` of the static phase, the arguments
+`argsOfNode` reads off `evalRT` marshal to exactly the argument record `runtimeArgs` (the model of
+the fork's `_args`), and the `_invocation` built from them round-trips to `canonData` of them. -/
+theorem resolver_fork_invocation_roundtrip (st : Martian.Dataflow.StructTable) (nf fuel : Nat)
+    (ρ : Martian.ResolverForks.Store) (f : Martian.ResolverForks.ForkAssign)
+    (n : Martian.ResolverStatic.SNode) (g : G) (decId id : Str) (args : List (Str × MV))
+    (ha : argsOfNode st nf ρ f n = some args)
+    (hi : ∀ p v, lookupMV args p = some v → mvIntsOk v = true) :
+    ofDJ (Martian.ResolverStatic.runtimeArgs st nf ρ f n) = some (.obj (kvsOfList (marshalArgs args))) ∧
+    ∃ ibs bs, invocationOf (sigOfNode st fuel n) [] args = some ibs ∧ plainBinds ibs = some bs ∧
+      (wfForkText g decId id bs = true → floatsOkBinds g bs = true →
+        (forkTextLeg g decId id bs).map (fun c => (c.1, c.2.1, dataOf c.2.2))
+          = some (decId, id, canonData (sigOfNode st fuel n) ⟨marshalArgs args, []⟩)) := by
+  refine ⟨?_, stage_fork_invocation_roundtrip g decId id _ args (fun p v hv => ?_) hi⟩
+  · simp only [Martian.ResolverStatic.runtimeArgs, ofDJ, marshalArgs_argsOfInputs st nf ρ f n.inputs args ha,
+      Option.map_some]
+  · obtain ⟨j, rfl⟩ := argsOfInputs_raw st nf ρ f n.inputs args ha p v hv
+    rfl
+
+/-- SUB-PIPELINE FORKS (known finding C16-N6), the shapes that do NOT compile.  A sub-pipeline's
+fork id is empty ("pipelines only sort-of fork"), so the splits of enclosing map calls in its
+bindings are unresolved and stay in place.  (1) A split INSIDE a value has no syntax: whatever the
+rest, `forkCompiles` is false. -/
+theorem nested_split_does_not_compile (g : G) (decId id : Str) (ibs : List (Str × IArg))
+    (h : plainBinds ibs = none) : forkCompiles g decId id ibs = false := by
+  simp [forkCompiles, h]
+
+private def nST : Str := [0x53, 0x54]   -- "ST"
+/-- witness (1), Tier A `call PL9(items = [13, split [null, null]])`: the resolver returns the array
+with the enclosing call's `SplitExp` as an element; `BuildCallAst` succeeds, the call does not compile -/
+example : (invocationOf [(kX, ⟨.scalar, 1, 0⟩)] []
+      [(kX, .marr (.cons (.val (.lit (.int 13)))
+        (.cons (.val (.split (.arr (.cons (.lit .null) (.cons (.lit .null) .nil))))) .nil)))]).map
+      (forkCompiles gEx nST nST) = some false := by decide +kernel
+/-- witness (2), `map call PL8(enable = split [])`: a map call over a run-time EMPTY collection -/
+example : (invocationOf [(kX, ⟨.scalar, 0, 0⟩)] [] [(kX, .val (.split (.arr .nil)))]).map
+      (forkCompiles gEx nST nST) = some false := by decide +kernel
+/-- witness (3), `map call PL8(x = split [true], y = split [[16, 0], [16, 0]])`: the split of the
+enclosing call (one element in this fork) next to the pipeline's own split of another length –
+each alone compiles, together "inconsistent split inputs" -/
+example :
+    (invocationOf [(kX, ⟨.scalar, 0, 0⟩), (kY, ⟨.scalar, 1, 0⟩)] []
+      [(kX, .val (.split (.arr (.cons (.lit (.bool true)) .nil)))),
+       (kY, .val (.split (.arr (.cons (.arr (.cons (.lit (.int 16)) .nil))
+          (.cons (.arr (.cons (.lit (.int 16)) .nil)) .nil)))))]).map (forkCompiles gEx nST nST) = some false
+    ∧ (invocationOf [(kX, ⟨.scalar, 0, 0⟩), (kY, ⟨.scalar, 1, 0⟩)] []
+      [(kX, .val (.split (.arr (.cons (.lit (.bool true)) .nil))))]).map (forkCompiles gEx nST nST) = some true := by
+  decide +kernel
+/-- non-vacuity, the top-level fork of `map call ST(x = split ["a", "b"], y = {…})` (a `SplitExp`
+argument, a struct from run-time data): compiles, and the theorem's hypotheses hold -/
+example :
+    (invocationOf [(kX, ⟨.scalar, 0, 0⟩), (kY, ⟨.struct innerT, 0, 0⟩)] []
+      [(kX, .val (.split (.arr (.cons (.lit (.str kA)) (.cons (.lit (.str kK)) .nil))))),
+       (kY, .lazy (.cons kA (.lit (.int 1)) .nil))]).map (forkCompiles gEx nST nST) = some true
+    ∧ topOk (.val (.split (.arr (.cons (.lit (.str kA)) (.cons (.lit (.str kK)) .nil))))) = true
+    ∧ topOk (.lazy (.cons kA (.lit (.int 1)) .nil)) = true := by decide +kernel
+/-- non-vacuity, a stage fork: a struct assembled member by member (`MarshalerMap` with a
+`LazyArgumentMap`, a `marshallerArray` and a source literal inside) is converted with the struct
+flags of `S` and marshals to the JSON `_args` has -/
+example :
+    (convertMV (.struct sT) 0 0 (.mmap (.cons kGrid (.marr (.cons (.raw (.arr (.cons (.lit (.int 1)) .nil))) .nil))
+        (.cons kInner (.lazy (.cons kA (.lit (.int 1)) .nil))
+        (.cons kName (.val (.lit (.str kA))) .nil))))).bind plainE
+      = some (.map true (.cons kGrid (.arr (.cons (.arr (.cons (.lit (.int 1)) .nil)) .nil))
+          (.cons kInner (.map true (.cons kA (.lit (.int 1)) .nil))
+          (.cons kName (.lit (.str kA)) .nil)))) := by rfl
+/-- non-vacuity of the resolver reading: an int and a string atom of C01's value type -/
+example : ofDJ (.obj [("x", .atom "1"), ("s", .arr [.atom "\"a\"", .dnull])])
+    = some (.obj (.cons kX (.lit (.int 1))
+        (.cons [0x73] (.arr (.cons (.lit (.str kA)) (.cons (.lit .null) .nil))) .nil))) := by rfl
+
+end ForkInvocation
 
 /-! ## the string leaf at byte level
 
